@@ -30,7 +30,9 @@ def lowerRData : RData → RData
   | .fields vs => .fields (vs.map fun v => match v with
       | .name n => .name n.lower
       | v => v)
-  | .svcb p t ps => .svcb p t.lower ps
+  | .svcb p t ps => .svcb p t.lower (ps.map fun q => match q with
+      | .mandatory ks => .mandatory (sortNat ks)
+      | q => q)
   | r => r
 
 def lowerRR (r : RR) : RR := { r with name := r.name.lower, rd := lowerRData r.rd }
